@@ -74,8 +74,33 @@ func init() { engines["par"] = parEngine{} }
 var fragments = []string{"2020-01-01", "2020/01/02", "\n", "\n", "\r\n", "    ", "  ", "\t", "1h", "-30m", "8:00 - 9:00", "8:00-?", " ", "#tag", "読む", "é",
 	"(8h!)", "Summary", "\n\n", " \n", "\t\n", "1:00pm", "<23:00 - 1:00>", "x", "?", "\xff", "\xc3", "\r", "0m"}
 
+// largeDoc: a valid file of 70-300 KiB (thousands of short records) - sizes at which an implementation may switch
+// strategy (thresholds, buffers); one record in the middle may be invalid.
+func largeDoc(r *Rng, capKiB int) (string, string) {
+	size := min(r.Pick2([]int{70, 70, 130, 300}), capKiB) << 10
+	var b strings.Builder
+	day := time.Date(2000, 1, 1, 12, 0, 0, 0, time.UTC)
+	bad := r.Chance(1, 4)
+	entries := []string{"    1h\n", "    8:00 - 9:00 work\n", "    30m #x\n    2h\n", "    9:00-12:30 #tag=1 some text that is a little longer\n    -30m lunch\n"}
+	for b.Len() < size {
+		day = day.AddDate(0, 0, 1)
+		b.WriteString(day.Format("2006-01-02") + "\n")
+		if bad && b.Len() > size/2 {
+			b.WriteString("    13:00 - 12:00\n")
+			bad = false
+		} else {
+			b.WriteString(entries[r.Intn(len(entries))])
+		}
+		b.WriteString("\n")
+	}
+	return b.String(), fmt.Sprintf("large:%dk", size>>10)
+}
+
 func genParText(r *Rng) (string, string) {
 	today := time.Date(2024, 3, 15, 12, 0, 0, 0, time.UTC)
+	if r.Chance(1, 80) {
+		return largeDoc(r, 300)
+	}
 	switch k := r.Intn(10); {
 	case k < 5:
 		d := genDoc(r, docOpts{today: today, maxRecords: r.Pick2([]int{1, 2, 3, 5, 8, 14})})
@@ -171,6 +196,9 @@ func (parEngine) generate(property string, seed int64, index int, tier string) *
 		n = r.Pick2([]int{2, 3, 4, 16})
 	default:
 		n = r.Range(2, 5)
+	}
+	if strings.HasPrefix(origin, "large:") {
+		n = r.Pick2([]int{2, 3, 4, 8, 16, 16, 64})
 	}
 	if strings.HasPrefix(origin, "errspread:") && r.Chance(3, 4) {
 		n, _ = strconv.Atoi(strings.TrimPrefix(origin, "errspread:"))
